@@ -644,6 +644,15 @@ End IndexMode.
 Lemma Qeq_bool_false : forall v, ~ v == 0 -> Qeq_bool v 0 = false.
 Proof. intros v H. destruct (Qeq_bool v 0) eqn:E; [|reflexivity]. apply Qeq_bool_iff in E. tauto. Qed.
 
+(* the model assembled from the GENERATED pieces of aesthetics() is the hand-written reference (bridge) *)
+Lemma aesthetics_generated_is_ref : forall meth flux iv, aesthetics_model meth flux iv = aesthetics_ref meth flux iv.
+Proof. intros [ | | | ] flux iv; reflexivity. Qed.
+
+Lemma forallb_id_nth : forall (l : list bool) i b, forallb (fun b : bool => b) l = true -> nth_error l i = Some b -> b = true.
+Proof.
+  intros l i b H E. rewrite forallb_forall in H. apply H. eapply nth_error_In, E.
+Qed.
+
 (* flux is untouched wherever the inverse variance is not zero.  For traditional / noconst / nothing this
    needs nothing else; `mean` overwrites every pixel that is not > 0, so there the pixel's inverse variance
    must not be negative. *)
@@ -652,17 +661,55 @@ Theorem aesthetics_support : forall meth flux iv i f v,
   (meth = Mean -> 0 <= v) ->
   exists out, nth_error (aesthetics_model meth flux iv) i = Some out /\ out == f.
 Proof.
-  intros meth flux iv i f v L Ef Ev Hnz Hv. unfold aesthetics_model.
+  intros meth flux iv i f v L Ef Ev Hnz Hv. rewrite aesthetics_generated_is_ref. unfold aesthetics_ref.
   assert (Em : nth_error (map (fun v => Qeq_bool v 0) iv) i = Some false)
     by (rewrite nth_error_map, Ev; cbn; rewrite Qeq_bool_false by assumption; reflexivity).
+  destruct (forallb (fun b : bool => b) (map (fun v => Qeq_bool v 0) iv)); [exists f; split; [exact Ef | reflexivity]|].
   destruct (existsb (fun b => b) (map (fun v => Qeq_bool v 0) iv)); [|exists f; split; [exact Ef | reflexivity]].
   destruct meth.
   - apply maskinterp_unmasked; [exact I | rewrite map_length; exact L | exact Ef | exact Em].
   - apply maskinterp_unmasked; [exact I | rewrite map_length; exact L | exact Ef | exact Em].
   - specialize (Hv eq_refl).
-    rewrite nth_error_map, nth_error_combine_opt, Ef, nth_error_map, Ev. cbn [option_map fst snd].
+    rewrite nth_error_map, nth_error_combine_opt, Ef, nth_error_combine_opt, nth_error_map, Ev, Em. cbn [option_map fst snd].
     replace (Qltb 0 v) with true by (symmetry; apply Qltb_iff; lra). exists f. split; reflexivity.
   - exists f. split; [exact Ef | reflexivity].
+Qed.
+
+(* without the sign condition the statement is FALSE of the code for `mean`: a pixel with negative inverse
+   variance is overwritten although its inverse variance is not zero (witness: flux 1 2 3 4, ivar 1 0 -1 2;
+   pixel 2 becomes the mean 5/2 of the pixels with ivar > 0) *)
+Theorem aesthetics_support_mean_refuted :
+  exists flux iv i f v out,
+    length iv = length flux /\ nth_error flux i = Some f /\ nth_error iv i = Some v /\ ~ v == 0 /\
+    nth_error (aesthetics_model Mean flux iv) i = Some out /\ ~ out == f.
+Proof.
+  exists [1; 2; 3; 4], [1; 0; -(1); 2], 2%nat, 3, (-(1)), (5 # 2).
+  repeat split; try reflexivity; intro H; vm_compute in H; discriminate.
+Qed.
+
+(* exactly where M may differ from the input: inverse variance zero, or (mean only) negative *)
+Theorem aesthetics_support_exact : forall meth flux iv i f v out,
+  length iv = length flux -> nth_error flux i = Some f -> nth_error iv i = Some v ->
+  nth_error (aesthetics_model meth flux iv) i = Some out -> ~ out == f ->
+  v == 0 \/ (meth = Mean /\ v < 0).
+Proof.
+  intros meth flux iv i f v out L Ef Ev Eo Hne.
+  destruct (Qeq_dec v 0) as [Z|NZ]; [left; exact Z|]. right.
+  assert (K : (meth = Mean -> 0 <= v) -> False).
+  { intro Hv. destruct (aesthetics_support meth flux iv i f v L Ef Ev NZ Hv) as (o & Ho & Eq).
+    rewrite Eo in Ho. injection Ho as <-. exact (Hne Eq). }
+  destruct meth; try (exfalso; apply K; discriminate).
+  split; [reflexivity|]. destruct (Qlt_le_dec v 0) as [Hn|Hp]; [exact Hn|]. exfalso. apply K. intros _. exact Hp.
+Qed.
+
+(* no pixel with non-zero inverse variance: every method returns the spectrum as it is *)
+Theorem aesthetics_all_bad_identity : forall meth flux iv,
+  (forall v, In v iv -> v == 0) -> aesthetics_model meth flux iv = flux.
+Proof.
+  intros meth flux iv H. rewrite aesthetics_generated_is_ref. unfold aesthetics_ref.
+  replace (forallb (fun b : bool => b) (map (fun v => Qeq_bool v 0) iv)) with true; [reflexivity|].
+  symmetry. apply forallb_forall. intros b Hb. apply in_map_iff in Hb. destruct Hb as (v & <- & Hv).
+  apply Qeq_bool_iff, H, Hv.
 Qed.
 
 Theorem aesthetics_spec_support : forall meth flux iv i f v,
@@ -678,6 +725,7 @@ Proof.
     destruct (T f Ef) as (x & m & Ex & Em'). rewrite Em in Em'. injection Em' as <-.
     rewrite (maskinterp_spec_nth flux _ None i x f false I Lm Ex Ef Em). reflexivity. }
   destruct meth; try exact TN; try exact Ef.
+  destruct (forallb (fun v => Qeq_bool v 0) iv); [exact Ef|].
   rewrite nth_error_map, nth_error_combine_opt, Ef, Ev. cbn [option_map fst snd].
   rewrite Qeq_bool_false by assumption. reflexivity.
 Qed.
@@ -690,28 +738,51 @@ Proof.
   induction l as [|b l IH]; [reflexivity|]. cbn. destruct b; cbn; [discriminate | exact IH].
 Qed.
 
-(* M = S for aesthetics when no inverse variance is negative *)
+Lemma good_pts_all_bad : forall xs ys mask, forallb (fun b : bool => b) mask = true -> good_pts xs ys mask = [].
+Proof.
+  induction xs as [|x xs IH]; intros [|y ys] [|m mask] H; try reflexivity.
+  cbn in H. apply andb_true_iff in H. destruct H as [Hm H]. cbn. rewrite Hm. apply IH, H.
+Qed.
+
+Lemma maskinterp1_all_bad : forall ys mask xval, forallb (fun b : bool => b) mask = true -> maskinterp1_model ys mask xval = ys.
+Proof.
+  intros ys mask xval H. unfold maskinterp1_model. destruct (forallb negb mask); [reflexivity|].
+  rewrite good_pts_all_bad by exact H. reflexivity.
+Qed.
+
+Lemma forallb_map_comp : forall {A} (g : A -> bool) (l : list A), forallb (fun b : bool => b) (map g l) = forallb g l.
+Proof. induction l as [|a l IH]; [reflexivity|]. cbn. rewrite IH. reflexivity. Qed.
+
+(* M = S for aesthetics when no inverse variance is negative (a spectrum without any good pixel included) *)
 Theorem aesthetics_model_eq_spec : forall meth flux iv i,
   length iv = length flux -> (forall v, In v iv -> 0 <= v) ->
   opt_Qeq (nth_error (aesthetics_model meth flux iv) i) (nth_error (aesthetics_spec meth flux iv) i).
 Proof.
-  intros meth flux iv i L Hpos. unfold aesthetics_model, aesthetics_spec.
+  intros meth flux iv i L Hpos. rewrite aesthetics_generated_is_ref. unfold aesthetics_ref, aesthetics_spec.
   set (bad := map (fun v => Qeq_bool v 0) iv).
   assert (Lb : length bad = length flux) by (unfold bad; rewrite map_length; exact L).
-  assert (MI : (if existsb (fun b => b) bad then maskinterp1_model flux bad None else flux) = maskinterp1_model flux bad None).
-  { destruct (existsb (fun b => b) bad) eqn:E; [reflexivity|].
-    unfold maskinterp1_model. rewrite (existsb_forallb_negb bad E). reflexivity. }
+  assert (AB : forallb (fun b : bool => b) bad = forallb (fun v => Qeq_bool v 0) iv) by apply forallb_map_comp.
+  assert (MI : forall k, opt_Qeq (nth_error (if forallb (fun b : bool => b) bad then flux
+                                             else if existsb (fun b => b) bad then maskinterp1_model flux bad None else flux) k)
+                                 (nth_error (maskinterp1_model flux bad None) k)).
+  { intro k. destruct (forallb (fun b : bool => b) bad) eqn:A.
+    - rewrite (maskinterp1_all_bad flux bad None A). apply opt_Qeq_refl.
+    - destruct (existsb (fun b => b) bad) eqn:E; [apply opt_Qeq_refl|].
+      unfold maskinterp1_model. rewrite (existsb_forallb_negb bad E). apply opt_Qeq_refl. }
+  assert (Tr : forall a b c, opt_Qeq a b -> opt_Qeq b c -> opt_Qeq a c).
+  { intros [a|] [b|] [c|]; cbn; try tauto. intros H1 H2. rewrite H1. exact H2. }
   destruct meth.
-  - rewrite MI. apply maskinterp_model_eq_spec; [exact I | exact Lb].
-  - rewrite MI. apply maskinterp_model_eq_spec; [exact I | exact Lb].
-  - assert (G : map (fun v => Qltb 0 v) iv = map (fun v => negb (Qeq_bool v 0)) iv).
+  - eapply Tr; [apply MI|]. apply maskinterp_model_eq_spec; [exact I | exact Lb].
+  - eapply Tr; [apply MI|]. apply maskinterp_model_eq_spec; [exact I | exact Lb].
+  - rewrite <- AB. destruct (forallb (fun b : bool => b) bad) eqn:A; [apply opt_Qeq_refl|].
+    assert (G : map (fun v => Qltb 0 v) iv = map (fun v => negb (Qeq_bool v 0)) iv).
     { apply map_ext_in. intros v Hv. specialize (Hpos v Hv). destruct (Qeq_bool v 0) eqn:E; cbn.
       - apply Qeq_bool_iff in E. apply Qltb_false_iff. lra.
       - apply Qeq_bool_neq in E. apply Qltb_iff. lra. }
     rewrite G. set (mu := qsum _ / qnat _).
     rewrite (nth_error_map _ _ (combine flux iv)), nth_error_combine_opt.
     destruct (existsb (fun b => b) bad) eqn:E.
-    + rewrite nth_error_map, nth_error_combine_opt, nth_error_map.
+    + rewrite nth_error_map, nth_error_combine_opt, nth_error_combine_opt, nth_error_map. unfold bad. rewrite nth_error_map.
       destruct (nth_error flux i) as [f|], (nth_error iv i) as [v|]; cbn; try exact I.
       destruct (Qeq_bool v 0); cbn; reflexivity.
     + destruct (nth_error flux i) as [f|] eqn:Ef.
@@ -722,7 +793,7 @@ Proof.
         assert (X : existsb (fun b => b) bad = true) by (apply existsb_exists; exists true; split; [eapply nth_error_In, Hb | reflexivity]).
         congruence.
       * destruct (nth_error iv i); exact I.
-  - destruct (existsb (fun b => b) bad); apply opt_Qeq_refl.
+  - destruct (forallb (fun b : bool => b) bad); [apply opt_Qeq_refl|]. destruct (existsb (fun b => b) bad); apply opt_Qeq_refl.
 Qed.
 
 (* ---------------------------------------------------------------- the `const` rules (GENERATED) write nothing new *)
